@@ -3,7 +3,7 @@ import re
 
 R8 = list(range(0, 8))
 RPLUS = list(range(8, 16))
-RNAMES = {0: "lfrc", 1: "hp_static", 2: "he_static", 3: "qsbr", 4: "stamp_it", 5: "ebr_sf1", 6: "nebr_sf1", 7: "debra_sf1",
+RNAMES = {16: "hp_eager", 17: "he_eager", 0: "lfrc", 1: "hp_static", 2: "he_static", 3: "qsbr", 4: "stamp_it", 5: "ebr_sf1", 6: "nebr_sf1", 7: "debra_sf1",
           8: "hp_dynamic", 9: "he_dynamic", 10: "lfrc_tl2_pad", 11: "geb_n2_abandon_always", 12: "geb_all_abandon_thr2_lazy",
           13: "geb_sf0_one_none", 14: "ebr_sf2", 15: "debra_sf2_abandon"}
 
@@ -13,7 +13,7 @@ for n in range(16):
 TARGETS["queues.norecl"] = dict(src="scenarios/queues.cpp", defs=["-DXV_NORECL"])
 for n in range(16):
     TARGETS["vyukov.R%d" % n] = dict(src="scenarios/vyukov.cpp", defs=["-DXV_RECL=%d" % n])
-for n in range(16):
+for n in range(18):  # 16 / 17 = eager hazard_pointer / hazard_eras (threshold 0: a scan on every retirement)
     TARGETS["harris.R%d" % n] = dict(src="scenarios/harris.cpp", defs=["-DXV_RECL=%d" % n])
 for n in range(16):
     TARGETS["reclaim.R%d" % n] = dict(src="scenarios/reclaim.cpp", defs=["-DXV_RECL=%d" % n])
@@ -459,15 +459,17 @@ PLANS["C13"] = plan_simple(
     "readers, <= 5 operations each, under one seeded schedule (every seq_cst operation, mutex operation and yield is a scheduling point); functor "
     "overlap monitor per instance address, per-instance update logs, WGL search against an atomic register", {"reads_between_switch_and_second_apply": 500}, chunks=16)
 
-def plan_harris(prop, pattern, execs_quick, execs_thorough, rule, gate_counters, seq=False, hold=False):
+def plan_harris(prop, pattern, execs_quick, execs_thorough, rule, gate_counters, seq=False, hold=False, eager=()):
     def targets(tier):
         recls = R8 if tier == "quick" else R8 + [8, 9, 11, 12]
-        return [("harris.R%d" % r, "xrt-prod") for r in recls]
+        return [("harris.R%d" % r, "xrt-prod") for r in recls + list(eager)]
 
     def jobs(tier, seed, list_configs):
         recls = R8 if tier == "quick" else R8 + [8, 9, 11, 12]
         execs = execs_quick if tier == "quick" else execs_thorough
         j = generic_jobs(list_configs, "harris", recls, pattern, "xrt-prod", "sc", execs, seed, per_job=2 if tier == "quick" else 1)
+        # eager hazard_pointer / hazard_eras (threshold 0): an unprotected retired node is freed at once, the heap shadow sees every stale access
+        j += generic_jobs(list_configs, "harris", list(eager), pattern, "xrt-prod", "sc", execs, seed + 5, per_job=2 if tier == "quick" else 1)
         if seq:
             # sequential differential runs against std::map: 729 executions = the complete enumeration of all sequences of 4 operations
             # (243 slices) + 486 long random sequences per configuration
@@ -495,12 +497,15 @@ PLANS["C08"] = plan_harris(
     "C08", r"^lin_", 5000, 40000,
     "each evaluation = 2-4 threads x <= 6 operations (emplace / emplace_or_get / get_or_emplace(_lazy) / operator[] / erase(key) / find+erase(iterator) / "
     "find / contains) over a universe of 2-4 keys on harris_michael_list_based_set (less / greater) and harris_michael_hash_map (1/2/4 buckets, identity / "
-    "constant / order-reversing / two-valued hash, memoize_hash on/off, int keys and a non-trivially movable key type whose moved-from value differs) with unique values per insertion, plus a final iteration; judged per key "
+    "constant / order-reversing / two-valued hash, memoize_hash on/off, int keys and a non-trivially movable key type whose moved-from value differs) with unique values per insertion, plus a final iteration (a third of the executions use 5-8 mostly present keys instead, an eighth a shaped program: one thread "
+    "inserts a high key while another inserts twice behind its predecessor, erases the predecessor and inserts again - searches restarted in the middle of a list); "
+    "reclaimers: the 8 standard ones plus eager hazard_pointer / hazard_eras (scan on every retirement); judged per key "
     "(P-compositionality) by a WGL search against a sequential set/map; plus (seq_*) single-threaded differential runs against std::map / std::set "
     "for every configuration and reclaimer: the complete enumeration of all 104 976 sequences of 4 operations over 9 operation kinds x 2 keys, and "
     "random sequences of 100-500 operations over 3-40 keys, every result compared with the reference container, the whole content compared by "
     "iteration (the set in the order of its compare functor), and the iterator returned by erase(iterator) checked (set: the successor)",
-    {"wgl_nodes": 1000, "seq_exhaustive_sequences": 104976, "seq_random_sequences": 1000}, seq=True)
+    {"wgl_nodes": 1000, "seq_exhaustive_sequences": 104976, "seq_random_sequences": 1000, "shaped_restart_programs": 1000, "wide_universe_executions": 10000},
+    seq=True, eager=(16, 17))
 PLANS["C09"] = plan_harris(
     "C09", r"^trav_", 5000, 40000,
     "each evaluation = one traversing thread (1-2 full traversals with pre-/post-increment, iterator copies, optional erase(iterator) at position 0-2) and "
@@ -509,7 +514,7 @@ PLANS["C09"] = plan_harris(
     "updates (incl. the traverser's erase) are checked per key for linearizability as in C08; plus (hold_*) single-threaded random sequences of "
     "100-500 operations in which an iterator obtained by find() is held across 0-2 updates of the same thread (also of its own key) and then "
     "dereferenced and advanced or passed to erase(iterator): it must still refer to its element and move to exactly the element that follows it in a "
-    "fresh iteration (set: in compare order), the content is compared with std::map", {"traversals": 1000, "traversal_yields": 1000, "hold_episodes": 10000}, hold=True)
+    "fresh iteration (set: in compare order), the content is compared with std::map", {"traversals": 1000, "traversal_yields": 1000, "hold_episodes": 10000}, hold=True, eager=(17,))
 
 VYU_RECLS = [1, 2, 3, 4, 5, 6, 7]  # vyukov_hash_map does not compile with lock_free_ref_count
 
